@@ -26,7 +26,7 @@ CLAIMS = {
 }
 
 CLAIMS["C10"] = dict(
-    text=("Every history of up to 4 (quick) / 5 (thorough) events per contact - answer, hearsay mention, query received, query sent, "
+    text=("Every history of up to 5 (quick) / 6 (thorough) events per contact - answer, hearsay mention, query received, query sent, "
           "wait of any length in [0, 40 min] at nanosecond resolution, from a symbolic clock start - is decided against a reference "
           "log stating what the property allows (good only with an answer/query within 15 min, hearsay-only stays questionable, "
           "two unanswered queries while not good drop the contact, an answer makes it good at once); plus the 15-minute boundary "
@@ -40,13 +40,16 @@ CLAIMS["C08"] = dict(
           "decided against the property's clauses: at most one node lost, only a strictly worse one, none while a free or bad slot "
           "exists, repeat offers update in place, full bucket of equal-or-better nodes rejects and is unchanged, room or a worse "
           "node => admitted, no duplicate. Being an inductive step from any state satisfying the stated invariant it covers "
-          "histories of any length at bucket level. Quick: 4 symbolic slots at a time; thorough: all 8 at once."),
+          "histories of any length at bucket level. Quick: 4 symbolic slots at a time; thorough: all 8 at once. Plus symbolic kernels for the "
+          "table's placement arithmetic."),
     note=("Slot identities are concrete and distinct (symbolic standing); occupancy concrete per harness (DESIGN.md F21); virtual "
-          "clock; the table-level placement/split is decided by the table harnesses listed in evidence."),
+          "clock. Table level: only the placement arithmetic (bucket_placement, can_split_bucket, leading_bit_count, flip_bit) is decided, "
+          "by symbolic kernels; the split itself (re-adding the 8 nodes, retry) is NOT decided - harnesses over a heap-backed table with "
+          "symbolic state did not terminate (DESIGN.md 8.3/8.5)."),
 )
 
 CLAIMS["C06"] = dict(
-    text=("Token store level: for every IPv4/IPv6 address, every store age at issue (0..3 h), up to 1 (quick) / 2 (thorough) "
+    text=("Token store level: for every IPv4/IPv6 address, every store age at issue (0..3 h), up to 3 (IPv4) / 1 (IPv6) in quick, 2 (IPv6) in thorough "
           "interleaved other events at symbolic times and a symbolic final gap (1 ns resolution, symbolic clock start) the solver "
           "decides: accepted whenever younger than 600 s, refused from 1800 s on, refused from any other IP, refused when never "
           "issued or issued by a store with other secrets; Token::new accepts exactly 20 bytes. Bounded by the number of "
@@ -58,8 +61,9 @@ CLAIMS["C09"] = dict(
     text=("The bucket-index walk behind every nearest-node enumeration is decided completely: one symbolic step proves that the "
           "next index is inside the table, not visited before, and the nearest unvisited one (right before left), for every start "
           "0..=160 and every position; the whole walk from a symbolic start is unrolled to show it ends after exactly 159/160 moves. "
-          "Together: every bucket index is visited exactly once, nearest first. The iterator over actual table contents and the "
-          "take(8)/family filter are outside (stated)."),
+          "Together: every bucket index is visited exactly once, nearest first. The enumeration's set-up over a table (start index = shared "
+          "prefix, assorted nodes keyed by their own ideal index, sorted buckets read by index) is decided on a 3-bucket table. Iterating "
+          "actual table contents (ClosestNodes::next) and the take(8)/family filter are outside (stated)."),
     note="Loop-free integer kernel + one 161-step unrolling; no stubs. ClosestNodes::next on real tables did not terminate in CBMC (DESIGN.md F20/F22).",
 )
 CLAIMS["C19"] = dict(
@@ -73,8 +77,10 @@ CLAIMS["C19"] = dict(
 CLAIMS["C13"] = dict(
     text=("btdht's own decoding code for compact peers and nodes is decided on every boundary length (multiples of 26/38 accepted, "
           "neighbours refused; 6/18-byte peers accepted, 5/7/17/19 refused) with all content bytes symbolic: decoded ids, addresses and "
-          "big-endian ports equal the input bytes; compact address encode/decode are inverse for every address and port. Further layers "
-          "(message dictionaries, canonical encoding) are listed per harness in the evidence as they are registered."),
+          "big-endian ports equal the input bytes; compact address encode/decode are inverse for every address and port; the q/a cross-check "
+          "(a query is accepted iff its arguments are those of the named method; a message lacking the part its type announces is refused) is "
+          "decided over all tag/variant combinations. The whole-text codec (canonical emission, dictionary decoding with reordered / unknown keys) "
+          "cannot be brought into the solver (DESIGN.md F8/F14/F24/F26); a native-validation harness samples it and is labelled as such."),
     note="serde in-memory deserializers replace the bencode text parser (not encodable, DESIGN.md F8/F14); lists <= 2 entries.",
 )
 
@@ -88,18 +94,20 @@ CLAIMS["C17"] = dict(
 )
 CLAIMS["C14"] = dict(
     text=("Piece A: btdht's structural pre-check (bencode::check_structure, added by the fix for the genuine defect) is decided on every "
-          "byte string of 8 (quick) / 12 and 16 (thorough) bytes against a reference lexer that mirrors the library's tokenisation: an accepted input never "
+          "byte string of 8 (quick) / 12 (thorough) bytes against a reference lexer that mirrors the library's tokenisation: an accepted input never "
           "declares a string longer than the remaining input nor nests deeper than MAX_DEPTH, with no panic, overflow or out-of-bounds; length "
-          "prefixes of 1, 2, 20 and 21 symbolic digits (every magnitude up to and beyond 2^64) and 33/40-level nesting bombs are rejected; "
+          "prefixes of 1, 2, 5, 20 (and 21 in thorough) symbolic digits (every magnitude up to and beyond 2^64) and 33/40-level nesting bombs are rejected; "
           "canonical encodings of valid messages are accepted. Piece B: btdht's own compact decoders return Ok/Err without panic on every "
           "boundary length. No claim for arbitrary 1500-byte strings through the library's lexer (not encodable, DESIGN.md F8/F14/F20)."),
     note="Trusted: that the bencode library allocates exactly the declared string length and recurses per nesting level (read from its source); Kani's default checks provide no-panic/no-overflow/no-OOB.",
 )
 CLAIMS["C12"] = dict(
-    text=("Table kernel only: one add_nodes(responder, names) on a directly built 2-bucket table with arbitrary standings: names are "
-          "admitted at most as questionable, never upgrade a stored node, the local id and router addresses never appear, shape invariant "
-          "kept; transaction ids are accepted only at 8 bytes. The handler-side clauses (queries never add their sender; responses routed "
-          "by action prefix) are NOT decided."),
+    text=("Table kernel only: one add_nodes(responder, [name]) on a directly built 2-bucket table whose stored contact has an arbitrary "
+          "standing: a fresh name and a second id on the responder's address are admitted exactly as questionable, the local id never "
+          "appears, nothing else is admitted, a stored contact named by hearsay keeps its standing (thorough), a contact is found only under "
+          "its full (id, address) handle; transaction ids are accepted only at 8 bytes. The router-address clause is decided only in the "
+          "thorough tier (std HashSet is barely tractable, F4/F17). The handler-side clauses (queries never add their sender; responses "
+          "routed by action prefix) are NOT decided."),
     note="handler.rs is outside the engine's reach (F7); table built directly with concrete identities (F21); RandomState stubbed with zero keys.",
 )
 
